@@ -58,6 +58,19 @@ def payload(off, n):
     return bytes(((i * 131 + (i >> 8) * 17 + 7) % 251) for i in range(off, off + n))
 
 
+def text_payload(total):
+    """exactly `total` bytes of valid UTF-8, position-dependent, mixing 1-4 byte characters"""
+    chars = ['a', '\xe9', '\u20ac', 'Z', '\U0001d11e', '7', '\xdf', '\u8a9e']
+    out = bytearray()
+    i = 0
+    while len(out) < total - 4:
+        out += chars[(i * 7 + (i >> 5)) % len(chars)].encode('utf-8')
+        out += (b'%d' % (i % 10))
+        i += 1
+    out += b'x' * (total - len(out))
+    return bytes(out)
+
+
 @st.composite
 def sim_cases(draw):
     kind = draw(st.sampled_from(['pty', 'pty', 'pipe', 'socket']))
@@ -110,15 +123,19 @@ def sim_cases(draw):
             'size': size,
             'style': draw(st.sampled_from(['rnb', 'rnb', 'expect_eof', 'read'])),
             'sock_timeout': draw(st.sampled_from([None, 0.0, 2.5])),
-            'eintr': draw(st.integers(0, 5)) == 0}
+            'eintr': draw(st.integers(0, 5)) == 0,
+            # unicode mode: the peer's writes (and the reads) cut the UTF-8 stream at arbitrary bytes
+            'enc': draw(st.sampled_from([None, None, 'utf-8']))}
 
 
 def materialise(case):
     acts = []
+    total = sum(a['n'] for a in case['actions'] if a['op'] == 'write')
+    whole = text_payload(total) if case.get('enc') else None
     for a in case['actions']:
         a = dict(a)
         if a['op'] == 'write':
-            a['data'] = payload(a['off'], a['n'])
+            a['data'] = whole[a['off']:a['off'] + a['n']] if whole is not None else payload(a['off'], a['n'])
         acts.append(a)
     if case.get('eintr') and acts:
         acts.append({'t': acts[len(acts) // 2]['t'] + 0.05 * case['T'], 'op': 'eintr'})
@@ -134,11 +151,13 @@ def check_sim(case, col=None):
     feats = set()
     try:
         with sim.installed():
-            sp = simkernel.make_reader(sim, use_poll=case['use_poll'], timeout=T, maxread=size)
+            enc = case.get('enc')
+            ekw = {'encoding': enc} if enc else {}
+            sp = simkernel.make_reader(sim, use_poll=case['use_poll'], timeout=T, maxread=size, **ekw)
             sp.delayafterread = None
             if case['kind'] == 'socket':
                 sim.sock_proxy._timeout = case['sock_timeout']
-            got = b''
+            got = '' if enc else b''
             eof_seen = False
             style = case['style']
             try:
@@ -165,7 +184,7 @@ def check_sim(case, col=None):
                                     pass
                             if len(d) > size:
                                 raise Violation('read-larger-than-size', 'read_nonblocking(%d) returned %d bytes' % (size, len(d)))
-                            if len(d) == 0:
+                            if len(d) == 0 and not enc:       # (unicode mode: a read may hold only part of a character)
                                 raise Violation('empty-read', 'read_nonblocking returned no data and no EOF')
                             got += d
                             if case['kind'] == 'socket' and sim.sock_proxy.gettimeout() != case['sock_timeout']:
@@ -188,15 +207,18 @@ def check_sim(case, col=None):
             if not eof_seen:
                 raise Violation('no-eof', 'EOF never reported')
             want = sim.written
+            if len(want) != total:
+                raise Violation('harness-accounting', 'peer wrote %d of %d scripted bytes' % (len(want), total))
+            if enc:
+                want = want.decode(enc)
             if got != want:
                 # describe the first difference
                 k = 0
                 while k < min(len(got), len(want)) and got[k] == want[k]:
                     k += 1
-                raise Violation('content:' + case['kind'], '%s transport (%s, size %d): delivered %d bytes, peer wrote %d; first '
-                                'difference at offset %d' % (case['kind'], style, size, len(got), len(want), k))
-            if len(want) != total:
-                raise Violation('harness-accounting', 'peer wrote %d of %d scripted bytes' % (len(want), total))
+                raise Violation('content:' + case['kind'], '%s transport (%s, size %d%s): delivered %d %s, peer wrote %d; first '
+                                'difference at offset %d' % (case['kind'], style, size, ', ' + enc if enc else '', len(got),
+                                                             'characters' if enc else 'bytes', len(want), k))
             if not sp.flag_eof:
                 raise Violation('flag-eof', 'flag_eof is not set after EOF')
             if case['kind'] == 'socket' and sim.sock_proxy.gettimeout() != case['sock_timeout']:
@@ -220,6 +242,8 @@ def check_sim(case, col=None):
             col.label(f)
         col.label('transport=' + case['kind'])
         col.label('style=' + case['style'])
+        if case.get('enc'):
+            col.label('unicode-mode')
         col.case(case, bool(feats))
 
 
